@@ -32,6 +32,13 @@
 (* The voice name of a line (WebVTT <v>, the Name column of SubStation      *)
 (* Alpha) is part of the document: it survives between those two formats   *)
 (* and nowhere else.                                                       *)
+(* The format-neutral metadata (Title, Language, Framerate, TTMLCopyright)  *)
+(* is part of the document as well: the title lives in TTML, SubStation     *)
+(* Alpha and STL, the language in TTML and STL, the frame rate is read from *)
+(* TTML and STL but written by WriteToSTL only (WriteToTTML emits no        *)
+(* ttp:frameRate - its times are clock times), and newGSIBlock fills in     *)
+(* French and 25 fps when the list says nothing or something STL cannot     *)
+(* express.                                                                 *)
 (* tts:extent / tts:origin (region geometry) are not modelled.             *)
 (***************************************************************************)
 EXTENDS Integers, Sequences, TLC
@@ -44,7 +51,8 @@ Nil == [has |-> FALSE, b |-> FALSE, i |-> FALSE, u |-> FALSE, wb |-> FALSE, wi |
 Set == [Nil EXCEPT !.has = TRUE]
 
 X0 == [b |-> FALSE, i |-> FALSE, u |-> FALSE, col |-> "", tags |-> <<>>, align |-> "", pos |-> "", line |-> "",
-       talign |-> "", jc |-> 0, vp |-> 0, mnr |-> 0, dsc |-> 0, it |-> FALSE, un |-> FALSE, bx |-> FALSE, voice |-> ""]
+       talign |-> "", jc |-> 0, vp |-> 0, mnr |-> 0, dsc |-> 0, it |-> FALSE, un |-> FALSE, bx |-> FALSE, voice |-> "",
+       title |-> "", lang |-> "", fr |-> 0, copy |-> ""]
 
 ---------------------------------------------------------------------------
 (* webvtt.go cssColor: the five class colours, compared in lower case *)
@@ -72,18 +80,22 @@ PropSTL(sa, mnr) ==
 
 ---------------------------------------------------------------------------
 (* the readers: which StyleAttributes values exist after reading a one-cue, one-run file saying x *)
+NoMeta == [title |-> "", lang |-> "", fr |-> 0, copy |-> ""]
+StlFps(fr) == IF fr = 30 THEN 30 ELSE 25                       \* the disk format code of a file is STL25.01 or STL30.01
 JustOf(jc) == CASE jc = 1 -> "l" [] jc = 2 -> "c" [] jc = 3 -> "r" [] OTHER -> "u"
 JcOf(sa) == CASE sa.just = "u" -> 0 [] sa.just = "c" -> 2 [] sa.just = "r" -> 3 [] OTHER -> 1    \* nil: left
 Read(f, x) ==
-  CASE f = "srt" -> [cue |-> Nil, mnr |-> 0, dsc |-> -1, voice |-> "",
+  CASE f = "srt" -> [cue |-> Nil, mnr |-> 0, dsc |-> -1, voice |-> "", meta |-> NoMeta,
                      run |-> IF x.b \/ x.i \/ x.u \/ x.col # ""
                              THEN PropSRT([Set EXCEPT !.b = x.b, !.i = x.i, !.u = x.u, !.col = x.col]) ELSE Nil]
-    [] f = "vtt" -> [cue |-> PropVTT([Set EXCEPT !.align = x.align, !.pos = x.pos, !.line = x.line]), mnr |-> 0, dsc |-> -1, voice |-> x.voice,
+    [] f = "vtt" -> [cue |-> PropVTT([Set EXCEPT !.align = x.align, !.pos = x.pos, !.line = x.line]), mnr |-> 0, dsc |-> -1, voice |-> x.voice, meta |-> NoMeta,
                      run |-> IF x.tags # <<>> THEN PropVTT([Set EXCEPT !.tags = x.tags]) ELSE Nil]
     [] f = "ttml" -> [cue |-> PropTTML([Set EXCEPT !.talign = x.talign]), mnr |-> 0, dsc |-> -1, voice |-> "",
+                      meta |-> [title |-> x.title, lang |-> x.lang, fr |-> x.fr, copy |-> x.copy],
                       run |-> PropTTML([Set EXCEPT !.tcol = x.col])]
-    [] f = "ssa" -> [cue |-> Set, run |-> Nil, mnr |-> 0, dsc |-> -1, voice |-> x.voice]
+    [] f = "ssa" -> [cue |-> Set, run |-> Nil, mnr |-> 0, dsc |-> -1, voice |-> x.voice, meta |-> [NoMeta EXCEPT !.title = x.title]]
     [] f = "stl" -> [cue |-> PropSTL([Set EXCEPT !.just = JustOf(x.jc), !.row = x.vp], x.mnr), mnr |-> x.mnr, dsc |-> x.dsc, voice |-> "",
+                     meta |-> [title |-> x.title, lang |-> x.lang, fr |-> StlFps(x.fr), copy |-> ""],
                      run |-> [Set EXCEPT !.it = x.it, !.un = x.un, !.bx = x.bx]]
 
 (* the writers: what the written file says *)
@@ -94,10 +106,13 @@ Write(f, d) ==
   CASE f = "srt" -> [X0 EXCEPT !.b = d.run.b, !.i = d.run.i, !.u = d.run.u, !.col = d.run.col]
     [] f = "vtt" -> [X0 EXCEPT !.tags = (IF Css(d.run.tcol) # "" THEN <<"c." \o Css(d.run.tcol)>> ELSE <<>>) \o d.run.tags,
                                !.align = d.cue.align, !.pos = d.cue.pos, !.line = d.cue.line, !.voice = d.voice]
-    [] f = "ttml" -> [X0 EXCEPT !.talign = d.cue.talign, !.col = d.run.tcol]
-    [] f = "ssa" -> [X0 EXCEPT !.voice = d.voice]
+    [] f = "ttml" -> [X0 EXCEPT !.talign = d.cue.talign, !.col = d.run.tcol,
+                                !.title = d.meta.title, !.copy = d.meta.copy, !.lang = d.meta.lang]      \* no ttp:frameRate
+    [] f = "ssa" -> [X0 EXCEPT !.voice = d.voice, !.title = d.meta.title]
     [] f = "stl" -> [X0 EXCEPT !.jc = JcOf(d.cue), !.vp = ClampRow(IF d.cue.row >= 0 THEN d.cue.row ELSE 20, DscOut(d)),
                                !.mnr = IF d.mnr > 0 THEN d.mnr ELSE 23, !.dsc = DscOut(d),
+                               !.title = d.meta.title, !.lang = IF d.meta.lang = "" THEN "french" ELSE d.meta.lang,
+                               !.fr = IF d.meta.fr \in {25, 30} THEN d.meta.fr ELSE 25,
                                !.it = d.run.it, !.un = d.run.un, !.bx = d.run.bx]
 
 Mid(src, x) == Read(src, x)
@@ -115,14 +130,25 @@ Looks(f) ==
     [] f = "ssa" -> {[X0 EXCEPT !.voice = v] : v \in {"", "Bob"}}
     [] f = "stl" -> {[X0 EXCEPT !.jc = j, !.vp = v, !.mnr = m, !.dsc = ds, !.it = it, !.un = un, !.bx = bx] :
                        j \in 0..3, v \in {0, 1, 5, 20, 22, 30}, m \in {11, 23}, ds \in {0, 1}, it, un, bx \in BOOLEAN}
-Cases == UNION {{<<f, g, x>> : g \in Fmts, x \in Looks(f)} : f \in Fmts}
+\* metadata varies on one plain look per format (it does not interact with the styling)
+Plain(f) == IF f = "stl" THEN [X0 EXCEPT !.jc = 1, !.vp = 20, !.mnr = 23, !.dsc = 1, !.fr = 25] ELSE X0
+MetaLooks(f) ==
+  CASE f = "ttml" -> {[Plain(f) EXCEPT !.title = t, !.lang = l, !.fr = r, !.copy = c] :
+                        t \in {"", "My programme"}, l \in {"", "english", "french"}, r \in {0, 24, 25, 30}, c \in {"", "(c) 2020"}}
+    [] f = "ssa" -> {[Plain(f) EXCEPT !.title = t] : t \in {"", "My programme"}}
+    [] f = "stl" -> {[Plain(f) EXCEPT !.title = t, !.lang = l, !.fr = r] : t \in {"", "My programme"}, l \in {"", "english", "french"}, r \in {25, 30}}
+    [] OTHER -> {}
+AllLooks(f) == Looks(f) \cup MetaLooks(f)
+Cases == UNION {{<<f, g, x>> : g \in Fmts, x \in AllLooks(f)} : f \in Fmts}
 
 ---------------------------------------------------------------------------
 (* laws (StylePropMC checks them on every case) *)
 \* a file written by the library says the same when read and written again (the look is stable from the
 \* first generation on) - in particular converting within one format changes nothing
 Stable(f, g, x) == LET d == Out(f, g, x) IN Read(g, Write(g, d)) = d
-SameFormat(f, x) == (f = "stl" => ClampRow(x.vp, x.dsc) = x.vp) => Out(f, f, x) = Read(f, x)
+SameFormat(f, x) == /\ f = "stl" => ClampRow(x.vp, x.dsc) = x.vp /\ x.lang # ""      \* row clamp, default language
+                    /\ f = "ttml" => x.fr = 0                                        \* frame rate not written
+                    => Out(f, f, x) = Read(f, x)
 \* what survives a change of format
 Survives(f, g, x) ==
   LET m == Read(f, x) o == Out(f, g, x) IN
@@ -131,7 +157,11 @@ Survives(f, g, x) ==
   /\ f = "ttml" /\ g = "vtt" => o.cue.align = x.talign /\ (Css(x.col) # "" => o.run.tags = <<"c." \o Css(x.col)>>)
   /\ f = "stl" /\ g = "vtt" => o.cue.align = m.cue.align /\ o.cue.line = m.cue.line
   /\ f = "vtt" /\ g = "srt" => ~o.run.b /\ ~o.run.i /\ ~o.run.u                      \* the documented loss
-  /\ g = "ssa" => o = Read("ssa", [X0 EXCEPT !.voice = m.voice])
+  /\ g = "ssa" => o = Read("ssa", [X0 EXCEPT !.voice = m.voice, !.title = m.meta.title])
+  /\ x.title # "" => ((o.meta.title = x.title) = (f \in {"ttml", "ssa", "stl"} /\ g \in {"ttml", "ssa", "stl"}))
+  /\ x.lang # "" /\ g # "stl" => ((o.meta.lang = x.lang) = (f \in {"ttml", "stl"} /\ g = "ttml"))
+  /\ g = "stl" => o.meta.lang = (IF m.meta.lang = "" THEN "french" ELSE m.meta.lang) /\ o.meta.fr = (IF m.meta.fr = 30 THEN 30 ELSE 25)
+  /\ g # "stl" => o.meta.fr = 0
   /\ x.voice # "" => ((o.voice = x.voice) = (f \in {"vtt", "ssa"} /\ g \in {"vtt", "ssa"}))   \* voice names live in WebVTT and SubStation Alpha only
   /\ g = "stl" /\ f # "stl" => o.cue.just = "l" /\ o.cue.row = 20 /\ o.cue.line = "82%"
 =============================================================================
